@@ -13,15 +13,15 @@ CHECKS = {
  "C02": ("exploration", "3.C02", "deterministic simulation with fault injection into prover memory (wire, gate triple via hook, constant); model-decided two-sided oracle",
          "Each run injects exactly one fault into the witness / statement of an otherwise satisfiable session and asks the model whether the assignment is now unsatisfied; unsatisfied => the emitted proof must be rejected, still satisfied => accepted. Every (fault kind x phase) cell is populated; positions are drawn incl. first/last/boundary gates."),
  "C03": ("exploration", "3.C03", "deterministic simulation: every delivery judged by the real verifier and by an executable reference verifier (separate relations, explicit folding)",
-         "Differential check against RefVerifier, which re-derives all challenges with its own schedule, evaluates relations (a),(b),(c) separately and folds the generators explicitly round by round. Deliveries: honest, honest-from-bad-witness, and adversarially modified in any field incl. compensating shifts."),
+         "Differential check against RefVerifier, which re-derives all challenges with its own schedule, evaluates relations (a),(b),(c) separately and folds the generators explicitly round by round. Deliveries: honest, honest-from-bad-witness, adversarially modified in any field incl. compensating shifts; an adaptive adversary (forgeries tuned to a weight derived at every earlier schedule position, coordinated pair shifts, t_x rewritten so that relation (b) holds) and an adversarial prover node (reference prover with chosen, e.g. zeroed, nonces)."),
  "C04": ("fault_enumeration", "3.C04", "channel fault enumeration on accepted proofs: every single-bit flip, full field-level tamper catalogue, decoded-object identity oracle",
          "For each sampled accepted proof the channel adversary enumerates every single-bit flip of the encoding and the complete field-level catalogue (every slot x every perturbation, every pair swap, round surgery). Exhaustive over the fault space of each sampled proof."),
  "C05": ("exploration", "3.C05", "deterministic simulation with misdelivery and verifier-side statement/context deviation faults; deviation-class oracle plus reference relations",
          "An accepted proof is delivered to a verifier whose statement or bound context deviates in exactly one way from every class the property lists, to the verifier of an unrelated session, and to twin verifiers with the identical statement. Deviation => reject, identical => accept; every delivery is also held to the reference relations."),
  "C06": ("exploration", "3.C06", "recorded Merlin operation histories of both roles checked against an executable reference schedule",
-         "The vendored Merlin records every transcript operation; the main-transcript history of prover and verifier (labels, exact absorbed bytes, challenge outputs) must equal the schedule RefSchedule builds from the statement and the received proof; rejected deliveries must be a prefix ending at the failed validation; r comes from a clone; follow-up challenges agree."),
+         "The vendored Merlin records every transcript operation; the main-transcript history of prover and verifier (labels, exact absorbed bytes, challenge outputs) must equal the schedule RefSchedule builds from the statement and the received proof; rejected deliveries must be a prefix ending at the failed validation; r comes from a clone taken after the last absorbed message; follow-up challenges agree; the same through batch_verify (member transcripts)."),
  "C07": ("exploration", "3.C07", "deterministic simulation of a batch-verifying server fed by many sessions, incl. adversarially correlated (+d/-d, zero-sum) members; oracle = conjunction of individual real verdicts",
-         "Batches of 0..N deliveries with drawn composition, order, size mix and faulty-member positions, including pairs/triples whose residuals cancel under equal weights. batch_verify must agree with the conjunction of fresh individual verifications."),
+         "Batches of 0..N deliveries with drawn composition, order, size mix and faulty-member positions, including pairs/triples whose residuals cancel under equal weights and position-aware tuples that cancel under weights affine/quadratic in the position; gate-free batches; caller-chosen bases. batch_verify must agree with the conjunction of fresh individual verifications and must return a verdict whenever every member does."),
  "C08": ("fault_enumeration", "3.C08", "hostile channel / stream / allocator fault enumeration in an isolated child process with intent log",
          "Enumerates the (|L|,|R|) grid against circuits of every small size through verify and batch_verify, identity/special values in every slot, stream faults at every offset; samples random and structure-aware garbage under a counting allocator. No panic, abort or out-of-bounds; decode memory linear in input."),
  "C16": ("exploration", "3.C16", "replica lockstep simulation: one call history applied step by step to real Prover, real Verifier and RefCS; missing-assignment fault",
